@@ -9,7 +9,7 @@ from .. import scenario as sc, clauses as cl
 
 PROP = "C19"
 LEVEL = "exploration"
-RULE = ("Metamorphic check. Hypothesis scenarios in default / bounded / scaled / convex-constrained / regression / "
+RULE = ("Metamorphic check. 1 case in 80 has n = 33/36/40 (regulariser, projections or box; short budget) for size-dependent code paths. Otherwise: Hypothesis scenarios in default / bounded / scaled / convex-constrained / regression / "
         "regularised configurations, with x0 placements that force the clipping/projection code to run, passed as float, "
         "integer-valued or read-only arrays (flags.writeable=False) and a user_params dict. Each case is run twice in one "
         "process with different np.random.seed values (and an unrelated solve in between); unless an option documented as "
